@@ -16,6 +16,11 @@ def run(cls, path):
     if harness is None:
         print(err)
         return 2
+    try:
+        chk.regen(harness)
+        C.coq_make([f.replace(".v", ".vo") for f in chk.prop_files] + list(chk.extra_targets))
+    except Exception as e:
+        print("regeneration/build before replay failed:", e)
     case = rp["input"]
     if hasattr(st, "from_replay"):
         case = st.from_replay(case)
